@@ -216,11 +216,10 @@ Proof.
 Qed.
 
 (** *** C09 for for_each_concurrent, at every moment of every history *)
-Theorem fec_pulls_only_while_fewer_than_n_unfinished p inits ups rest pre c post :
-  hist_of P (OBuild TFEC p inits ups :: rest) = pre ++ EUpPoll (UAItem c) :: post ->
-  npull pre < p_cap p + nprodc pre.
+Lemma fec_history_HF p inits ups rest :
+  HF (p_cap p) (st_coll (run_state P init_state (OBuild TFEC p inits ups :: rest)))
+     (rev (hist_of P (OBuild TFEC p inits ups :: rest))).
 Proof.
-  intros Hh.
   set (s1 := fst (step_op P init_state (OBuild TFEC p inits ups))).
   assert (Hs1 : Inv s1) by (apply step_inv; auto; apply Inv_init).
   assert (H1 : fty (st_coll s1) /\ HF (p_cap p) (st_coll s1) (log (st_world s1) ++ [])).
@@ -236,12 +235,32 @@ Proof.
     split; [exact I|]. split; auto. cbn [st_coll st_world fe_q]. split; [exact Hcap|]. split; auto.
     rewrite Hl. unfold w0 at 1 2. simpl. rewrite !app_nil_r. unfold npull. rewrite A, C, Hlen. reflexivity. }
   destruct H1 as [Hk1 HI1].
-  pose proof (@fec_backpressure_log_from (p_cap p) s1 rest _ Hk1 Hs1 HI1) as [Hbp _].
+  pose proof (@fec_backpressure_log_from (p_cap p) s1 rest _ Hk1 Hs1 HI1) as H.
   assert (E : rlog_from P s1 rest (log (st_world s1) ++ []) = rev (hist_of P (OBuild TFEC p inits ups :: rest))).
   { unfold rlog_from, hist_of. cbn [run_logs]. cbn [is_dead init_state st_coll]. fold s1.
     rewrite rlog_rev. cbn [app flat_map]. rewrite rev_app_distr, rev_involutive, app_nil_r. reflexivity. }
-  rewrite E, Hh, rev_app_distr in Hbp. cbn [rev] in Hbp. rewrite <- app_assoc in Hbp. cbn [app] in Hbp.
+  rewrite E in H. cbn [run_state]. fold s1. exact H.
+Qed.
+
+Theorem fec_pulls_only_while_fewer_than_n_unfinished p inits ups rest pre c post :
+  hist_of P (OBuild TFEC p inits ups :: rest) = pre ++ EUpPoll (UAItem c) :: post ->
+  npull pre < p_cap p + nprodc pre.
+Proof.
+  intros Hh. destruct (fec_history_HF p inits ups rest) as [Hbp _].
+  rewrite Hh, rev_app_distr in Hbp. cbn [rev] in Hbp. rewrite <- app_assoc in Hbp. cbn [app] in Hbp.
   apply bpf_split in Hbp; [|simpl; discriminate]. rewrite npull_rev, nprodc_rev in Hbp. exact Hbp.
+Qed.
+
+(** exact accounting between operations: items pulled so far = futures finished so far + futures
+    still in the queue; the queue's capacity is the limit given at construction *)
+Theorem fec_accounting p inits ups rest a :
+  st_coll (run_state P init_state (OBuild TFEC p inits ups :: rest)) = CFec a ->
+  let h := hist_of P (OBuild TFEC p inits ups :: rest) in
+  fub_cap (fe_q a) = p_cap p /\ npull h = nprodc h + fub_len (fe_q a).
+Proof.
+  intros Hc. cbv zeta. destruct (fec_history_HF p inits ups rest) as [_ Hm].
+  rewrite Hc in Hm. destruct Hm as (Hcap & _ & I2).
+  rewrite npull_rev, nprodc_rev in I2. auto.
 Qed.
 
 End WithParams.
